@@ -118,6 +118,14 @@ def _match(p: object, c: object, b: _Binding) -> bool:
     if isinstance(p, ast.Raise) and isinstance(c, ast.Raise) and isinstance(p.exc, (ast.Name, ast.Attribute)) and isinstance(c.exc, ast.Call):
         # `raise X` in a pattern also stands for `raise X(<any message>)`
         return _match(p.exc, c.exc.func, b)
+    if isinstance(p, ast.Call) and isinstance(c, ast.Call) and p.keywords and all(k.arg for k in p.keywords):
+        # named keyword arguments match by name, not by position
+        if len(p.keywords) != len(c.keywords) or not all(k.arg for k in c.keywords):
+            return False
+        byname = {k.arg: k.value for k in c.keywords}
+        if set(byname) != {k.arg for k in p.keywords}:
+            return False
+        return _match(p.func, c.func, b) and _match(p.args, c.args, b) and all(_match(k.value, byname[k.arg], b) for k in p.keywords)
     if isinstance(p, ast.AST):
         if type(p) is not type(c):
             return False
